@@ -72,6 +72,32 @@ def designs_unstratified(rng, big=False):
     vals = [fex([tab[i][0] for i in p[:nx]], [tab[i][1] for i in p[nx:]]) for p in itertools.permutations(range(nx + ny))]
     call = (lambda g, alt, reps, x=x, y=y, d=d: guarded(lambda: core.two_sample_shift(np.array(x), np.array(y), reps=reps, shift=d, alternative=alt, seed=g, plus1=False)[0]))
     out.append((f"two_sample_shift x={x} y={y} d={d}", call, vals, fex([F(v) for v in x], [F(v) for v in y]), tuple((i + 1, "randbelow") for i in reversed(range(1, nx + ny)))))
+    # two_sample_shift with invertible pairs that are not translations (named 'mean' statistic, both keep_dist paths)
+    for kind in ("neg", "square") * (4 if big else 2):
+        for _ in range(200):
+            nx, ny = rng.choice([(3, 1), (3, 2), (2, 1)] if kind == "neg" else [(2, 2), (3, 2), (2, 3)])   # neg: nx > ny reverses the order of sum(u)
+            if kind == "neg":
+                f = finv = (lambda u: -u)
+                x = [float(rng.randint(-3, 4)) for _ in range(nx)]; y = [float(rng.randint(-3, 4)) for _ in range(ny)]
+            else:
+                f = (lambda u: u ** 2); finv = (lambda u: np.sqrt(u))
+                x = [float(rng.choice([0, 1, 4, 9, 16, 25])) for _ in range(nx)]; y = [float(rng.choice([0, 1, 2, 3, 4])) for _ in range(ny)]
+            c0 = np.concatenate([np.array(x), f(np.array(y))]); c1 = np.concatenate([finv(np.array(x)), np.array(y)])
+            t0 = [F(v) for v in c0]; t1 = [F(v) for v in c1]
+            fex = lambda u, v: sum(u) / len(u) - sum(v) / len(v)
+            perms = list(itertools.permutations(range(nx + ny)))
+            vals = [fex([t0[i] for i in p_[:nx]], [t1[i] for i in p_[nx:]]) for p_ in perms]
+            obs = fex(t0[:nx], t1[nx:])
+            # the doubles must classify every arrangement against the observed value exactly as the rationals do
+            fl = [float(np.mean(c0[list(p_[:nx])]) - np.mean(c1[list(p_[nx:])])) for p_ in perms]
+            ofl = float(np.mean(c0[:nx]) - np.mean(c1[nx:]))
+            if all((a >= ofl) == (b >= obs) and (a <= ofl) == (b <= obs) for a, b in zip(fl, vals)):
+                break
+        for keep in (False, True):
+            call = (lambda g, alt, reps, x=x, y=y, f=f, finv=finv, keep=keep: guarded(lambda: core.two_sample_shift(
+                np.array(x), np.array(y), reps=reps, shift=(f, finv), alternative=alt, seed=g, plus1=False, keep_dist=keep)[0]))
+            out.append((f"two_sample_shift[mean] pair={kind} keep_dist={keep} x={x} y={y}", call, vals, obs,
+                        tuple((i + 1, "randbelow") for i in reversed(range(1, nx + ny)))))
     # one_sample
     n = rng.randint(2, 6 if big else 4)
     z = [float(rng.randint(-3, 3)) for _ in range(n)]; w = [rng.randint(-2, 3) for _ in range(n)]
